@@ -322,8 +322,8 @@ class World:
             world = self
 
             class SpyBudget(Budget):
-                def consume(self, cost=1):
-                    r = Budget.consume(self, cost)
+                def consume(self, *a, **kw):
+                    r = Budget.consume(self, *a, **kw)
                     world.trace.append(("consume", r, world.rel()))
                     return r
 
@@ -346,24 +346,24 @@ class World:
         world = self
 
         class SpyBreaker(CircuitBreaker):
-            def allow(self):
-                d = CircuitBreaker.allow(self)
+            def allow(self, *a, **kw):
+                d = CircuitBreaker.allow(self, *a, **kw)
                 world.trace.append(("brk", "allow", None, (d.allowed, d.state.value, d.event),
                                     self._state.value))
                 return d
 
-            def record_success(self):
-                r = CircuitBreaker.record_success(self)
+            def record_success(self, *a, **kw):
+                r = CircuitBreaker.record_success(self, *a, **kw)
                 world.trace.append(("brk", "success", None, r, self._state.value))
                 return r
 
-            def record_failure(self, klass):
-                r = CircuitBreaker.record_failure(self, klass)
+            def record_failure(self, klass, *a, **kw):
+                r = CircuitBreaker.record_failure(self, klass, *a, **kw)
                 world.trace.append(("brk", "failure", klass_name(klass), r, self._state.value))
                 return r
 
-            def record_cancel(self):
-                r = CircuitBreaker.record_cancel(self)
+            def record_cancel(self, *a, **kw):
+                r = CircuitBreaker.record_cancel(self, *a, **kw)
                 world.trace.append(("brk", "cancel", None, r, self._state.value))
                 return r
 
